@@ -224,6 +224,8 @@ def _blocks(t, head_atom):
         return 0
     if t[0] == 'call' and t[1] in ('numpy.hstack', 'numpy.column_stack') and t[2] and t[2][0][0] in ('tuple', 'list'):
         t = ('call', 'numpy.concatenate', t[2], (('axis', C(1)),))
+    if t[0] == 'call' and t[1] == 'numpy.append' and len(t[2]) == 2 and dict(t[3]).get('axis') == C(1):
+        t = ('call', 'numpy.concatenate', (('tuple', (t[2][0], t[2][1])),), (('axis', C(1)),))
     if t[0] == 'call' and t[1] == 'numpy.concatenate' and t[2] and t[2][0][0] in ('tuple', 'list'):
         ax = dict(t[3]).get('axis', t[2][1] if len(t[2]) > 1 else None)
         if ax is not None and is_c(ax) and ax[1] == 1:
@@ -243,6 +245,11 @@ def rule_cap_bound(ctx, rid, fi, context):
     from ..paths import substitute, State
     P = ctx.P
     loops = [n for n in walk_local(fi.node) if isinstance(n, ast.While)]
+    from ..paths import synth_count_loop
+    for n in walk_local(fi.node):
+        sy = synth_count_loop(P, fi, n) if isinstance(n, ast.For) else None
+        if sy is not None:
+            loops.append(sy[1])
     acc = siftcore._return_accumulator(fi)
     cand = []
     for loop in loops:
